@@ -41,10 +41,11 @@ META = {
                  "tied to core/tx_pool.go and core/tx_list.go by trace validation of the real pool",
     "text": "Theorems inv_init / inv_step / inv_reachable (pending lists are gap-free affordable runs from the chain nonce, one transaction per "
             "sender and nonce) hold for all operation sequences and all eviction choices in the Lean model of the pool with the proposed "
-            "demotion patch; limits_after_reset, replacement_needs_bump, all_ok_step cover limits, price bump and the bookkeeping behind "
-            "reorg re-injection. For the code as written reset_gap_witness (a hole after re-injection, reproduced on the real pool, recorded "
+            "demotion patch; limits_after_reset, replacement_needs_bump, all_ok_step, reorg_reinjects_partial cover limits, price bump and reorg "
+            "re-injection. For the code as written reset_gap_witness (a hole after re-injection, reproduced on the real pool, recorded "
             "as known finding) and the …_aswritten_partial theorems. Every run replays >10k real pool transitions through the model and "
             "evaluates the clauses on every observed state.",
-    "note": GEN + " The reorg re-injection clause is proved at the bookkeeping level (all = pending ∪ queue for every operation, and the "
-                  "pre-fix defect as a decided witness); the end-to-end statement is judged on the real code per history.",
+    "note": GEN + " The reorg re-injection clause is proved end to end for local senders (reorg_reinjects_partial) and at the bookkeeping "
+                  "level for all (all = pending ∪ queue for every operation; the pre-fix defect as a decided witness); for non-local "
+                  "senders the end-to-end statement is judged on the real code per history.",
 }
